@@ -69,6 +69,23 @@ SCALED = [
 ]
 
 
+# entries of 2^-20 (9.5e-7, below 1e-6) as the only positive entries of a column, and costs of 2^-18 (3.8e-6, below
+# 1e-5): a ratio test that skips "tiny" pivot elements calls these bounded models unbounded, an optimality test
+# with a loose tolerance stops before it has started (both reported by seeding sub-agents)
+P20 = 1 << 20
+P18 = 1 << 18
+TINY = [
+    {"id": "h_tiny_pivot", "sense": "max", "obj": [P20], "off": 0, "den": P20, "vars": [NN("v0")], "rows": [row([1], "le", 4)]},
+    {"id": "h_tiny_pivot_two", "sense": "max", "obj": [P20, P20], "off": 0, "den": P20, "vars": [NN("v0"), NN("v1", hi=B(0, 2))],
+     "rows": [row([1, 0], "le", 3), row([-P20, P20], "le", 2 * P20)]},
+    {"id": "h_tiny_pivot_min", "sense": "min", "obj": [-P20, 0], "off": 0, "den": P20, "vars": [NN("v0"), NN("v1")], "rows": [row([1, 1], "le", 2), row([0, P20], "ge", 0)]},
+    {"id": "h_tiny_cost", "sense": "max", "obj": [1], "off": 0, "den": P18, "vars": [NN("v0")], "rows": [row([P18], "le", 3 * P18)]},
+    {"id": "h_tiny_cost_two", "sense": "min", "obj": [-1, -2], "off": 0, "den": P18, "vars": [NN("v0"), NN("v1")],
+     "rows": [row([P18, P18], "le", 3 * P18), row([P18, -P18], "le", 2 * P18)]},
+    {"id": "h_tiny_cost_bound", "sense": "max", "obj": [1, P18], "off": 0, "den": P18, "vars": [NN("v0", hi=B(0, 3)), NN("v1", hi=B(0, 1))], "rows": [row([P18, P18], "le", 4 * P18)]},
+]
+
+
 # model variables named like the columns the tableau path adds (the grammar allows $ names, and the
 # compiler's own $max_0 is $m + ax_0): every entry point gives each variable exactly one value, or refuses
 NAMED = [
@@ -121,7 +138,7 @@ def cycling_cases():
 
 def gen(tier, seed):
     meta = {}
-    cases = copy.deepcopy(HAND) + copy.deepcopy(DEGENERATE) + copy.deepcopy(SCALED) + copy.deepcopy(NAMED) + copy.deepcopy(CLARABEL_STOPS) + copy.deepcopy(CONTRADICTIONS) + cycling_cases()
+    cases = copy.deepcopy(HAND) + copy.deepcopy(DEGENERATE) + copy.deepcopy(SCALED) + copy.deepcopy(TINY) + copy.deepcopy(NAMED) + copy.deepcopy(CLARABEL_STOPS) + copy.deepcopy(CONTRADICTIONS) + cycling_cases()
     plan = [("Cont1.cfg", 350, None), ("Mixed1.cfg", 350, None), ("Cont2.cfg", 350, None), ("Mixed2.cfg", 450, None), ("Offset1.cfg", 200, None), ("Offset2.cfg", 300, None),
             ("SimMixed3.cfg", 250 if tier == "quick" else 6000, (3 if tier == "quick" else 40, 9)),
             ("SimCont3.cfg", 150 if tier == "quick" else 3000, (3 if tier == "quick" else 30, 9))]
